@@ -74,7 +74,7 @@ def rule_csv(ctx):
         nf = str(F.at(st, st.value.args[0]))
         found.append("%s(%s)" % (call_attr(st.value), nf))
         if call_attr(st.value) == "writerows":
-            ok = ok or any(nf == "zip(*[%s[_b0] for _b0 in %s])" % (ev, col) for ev in evars)
+            ok = ok or any(nf in ("zip(*[%s[_b0] for _b0 in %s])" % (ev, col), "list(zip(*[%s[_b0] for _b0 in %s]))" % (ev, col)) for ev in evars)
             continue
         loops_ = [l for l in F.stmts if isinstance(l, ast.For) and l is not exp_loops[0] and any(x is st for x in ast.walk(l)) and isinstance(l.target, ast.Name)]
         for l in loops_:
@@ -99,37 +99,21 @@ def check(ctx):
         f = ctx.fn(ref)
         ctx.require(keyparam in f.params, "%s lost its '%s' parameter" % (f.fq, keyparam))
         _no_reorder(ctx, f, keyparam)
-        fetches = [r for r in (_comp_fetch(n) for n in walk_body(f.node)) if r]
-        ctx.require(len(fetches) == 1, "%s: expected one [experiment[key] for key in keys] fetch, found %d" % (f.fq, len(fetches)))
-        cont, var, it = fetches[0]
-        ctx.check(it == keyparam, "C20.same-keys", f, "fetch over %s" % it,
-                  "values fetched by iterating '%s'" % keyparam,
-                  "values are fetched by iterating '%s', labels come from '%s'" % (it, keyparam))
-        # the experiment loop
-        loops = [st for st in f.node.body if isinstance(st, ast.For)]
-        ctx.require(len(loops) == 1 and dotted(loops[0].iter) == "experiments" and isinstance(loops[0].target, ast.Name),
-                    "%s: expected a single loop over 'experiments'" % f.fq)
-        ctx.check(cont == loops[0].target.id, "C20.same-keys", f, "container %s" % cont,
-                  "values come from the experiment being converted",
-                  "values are fetched from '%s', not from the loop's experiment '%s'" % (cont, loops[0].target.id))
-        # zip(*fetch) transposes; for dicts the labelling zip must use the same key sequence
-        zips = [c for c in calls(f.node) if call_attr(c) == "zip"]
-        star = [c for c in zips if len(c.args) == 1 and isinstance(c.args[0], ast.Starred)]
-        ctx.check(len(star) == 1, "C20.rows", f, "zip(*values)", "rows are the transposition of the fetched columns",
-                  "the columns are no longer transposed by a single zip(*...)")
-        if ref.endswith("dicts"):
-            lab = [c for c in zips if len(c.args) == 2 and not isinstance(c.args[0], ast.Starred)]
-            ctx.require(len(lab) == 1, "%s: expected dict(zip(keys, values))" % f.fq)
-            ctx.check(dotted(lab[0].args[0]) == keyparam, "C20.same-keys", f, "dict keys from %s" % dotted(lab[0].args[0]),
-                      "dict keys come from '%s'" % keyparam,
-                      "dict keys come from '%s' while values are fetched over '%s'" % (dotted(lab[0].args[0]), keyparam))
-        # appended once per experiment, in order
-        apps = [c for c in calls(f.node) if call_attr(c) == "append"]
-        ctx.check(len(apps) == 1 and any(c is n for n in ast.walk(loops[0]) for c in apps), "C20.rows", f, "append",
-                  "one result per experiment, appended in order", "results are not appended once per experiment")
-        rets = [st for st in statements(f.node) if isinstance(st, ast.Return)]
-        ctx.check(len(rets) == 1 and dotted(rets[0].value) == dotted(apps[0].func.value) if apps else False,
-                  "C20.rows", f, "return", "returns the accumulated list", "does not return the accumulated list")
+        # whole-function normal form (helpers extracted later are seen through): per experiment, the columns fetched *by key* over
+        # the label sequence, transposed; for dicts each row zipped with the same label sequence
+        from ..facts import Facts
+        got = Facts(f).returns()
+        fetch = "[_b0[_b1] for _b1 in %s]" % keyparam
+        if ref.endswith("tuples"):
+            want = ["[list(zip(*%s)) for _b0 in experiments]" % fetch]
+        else:
+            want = ["[[dict(zip(%s, _b1)) for _b1 in zip(*%s)] for _b0 in experiments]" % (keyparam, fetch),
+                    "[[dict(zip(%s, _b1)) for _b1 in list(zip(*%s))] for _b0 in experiments]" % (keyparam, fetch)]
+        ctx.check(len(got) == 1 and got[0] in want, "C20.same-keys", f, "result %s" % got,
+                  "per experiment, in order: the columns fetched by key over '%s', transposed into rows%s" % (keyparam, " and labelled with the same keys" if ref.endswith("dicts") else ""),
+                  "%s returns `%s`: the values are not fetched by key over '%s' in that order (expected `%s`), so a value can be labelled with / positioned under another factor" % (
+                      f.qual, got, keyparam, want[0]))
+        ctx.ok("C20.rows", f, "one result per experiment, in the order of `experiments` (part of the normal form)", trivial=True)
 
     rule_csv(ctx)
 
@@ -207,6 +191,6 @@ def check(ctx):
     from . import C22
     C22.rule_output_keys(ctx, R="C20.hidden")
     C22.rule_merge(ctx, R="C20.hidden")
-    ctx.min_instances("C20.same-keys", 12)
+    ctx.min_instances("C20.same-keys", 9)
     ctx.min_instances("C20.hidden", 12)
     ctx.min_instances("C20.partition", 4)
